@@ -178,6 +178,25 @@ func (m *mutator) refTarget(tok int) (int64, string) {
 	return 1, "any"
 }
 
+// kidsArray reports whether the reference starting at token i is an element
+// of a /Kids array of references; it returns the index of the array's opening
+// token (or -1) and the start tokens of all references in the array.
+func (m *mutator) kidsArray(i int) (int, []int) {
+	ts := m.toks
+	j := i - 1
+	for j >= 0 && (ts[j].Kind == syntax.TokInt || kw(ts[j], "R")) {
+		j--
+	}
+	if j < 1 || ts[j].Kind != syntax.TokArrayOpen || ts[j-1].Kind != syntax.TokName || string(ts[j-1].Bytes) != "Kids" {
+		return -1, nil
+	}
+	var refs []int
+	for k := j + 1; k+2 < len(ts) && ts[k].Kind == syntax.TokInt && ts[k+1].Kind == syntax.TokInt && kw(ts[k+2], "R"); k += 3 {
+		refs = append(refs, k)
+	}
+	return j, refs
+}
+
 // valueEnd returns the token index just after the value which starts at i.
 func (m *mutator) valueEnd(i int) int {
 	ts := m.toks
@@ -323,9 +342,32 @@ func (m *mutator) edit() bool {
 		if len(idx) == 0 {
 			return false
 		}
+		// a quarter of the draws go to the /Kids arrays (page tree, name and
+		// number trees, outlines use them for their shape)
+		if m.pick("kidsonly", 4) == 0 {
+			var kids []int
+			for _, i := range idx {
+				if a, _ := m.kidsArray(i); a >= 0 {
+					kids = append(kids, i)
+				}
+			}
+			if len(kids) > 0 {
+				idx = kids
+			}
+		}
 		i := idx[m.pick("reftok", len(idx))]
 		n, how := m.refTarget(i)
+		if a, refs := m.kidsArray(i); a >= 0 && len(refs) > 1 && m.pick("sibling", 2) == 0 {
+			// the same kid twice: a node reachable along two paths
+			k := refs[m.pick("whichsibling", len(refs))]
+			if k != i {
+				n, how = ts[k].Int, "sibling"
+			}
+		}
 		ctx := "element"
+		if a, _ := m.kidsArray(i); a >= 0 {
+			ctx = "/Kids"
+		}
 		if i > 0 && ts[i-1].Kind == syntax.TokName {
 			ctx = "/" + string(ts[i-1].Bytes)
 		}
